@@ -76,7 +76,8 @@ def scenarios(tier: str) -> List[Dict[str, Any]]:
 
     def add(sc, mono, ion="p", precision=None, loss=True, in_ann=False):
         nonlocal k
-        ch, ad, iso = cfgs[k % len(cfgs)] if precision is None else CHARGE_CFGS[k % len(CHARGE_CFGS)]
+        # k // 2: callers add the two mass modes back to back, both must meet the same charge/adduct configuration
+        ch, ad, iso = cfgs[(k // 2) % len(cfgs)] if precision is None else CHARGE_CFGS[(k // 2) % len(CHARGE_CFGS)]
         k += 1
         sc = dict(sc)
         sc.update(charge=ch, adducts=ad, isotope=iso, mono=mono, ion=ion, precision=precision, loss=loss,
